@@ -120,9 +120,9 @@ def build():
             shim = {"header": "shim_header_as_bytes", "c.class": "shim_class_as_bytes"}.get(recv, "shim_members_as_bytes")
             reg.replace_span(m.start(), m.end(), "%s(&%s)" % (shim, recv), "R2",
                              "Pod::as_bytes behind a shim (byte image abstract; layout pinned by Kani K1)")
-        reg.replace_all_re(r"members\.extend\(c\.members\.into_values\(\)\.flat_map\(\|m\| m\.into_iter\(\)\)\);", "shim_extend_flatten(&mut members, c.members);", "R2",
+        reg.replace_all_re(r"members\.extend\(\s*c\.members\s*\.into_values\(\)\s*\.(?:flat_map\(\|m\| m\.into_iter\(\)\)|flatten\(\)),?\s*\);", "shim_extend_flatten(&mut members, c.members);", "R2",
                            why="Vec::extend(BTreeMap::into_values().flat_map(..)) behind a shim: appends the map's vectors in key order")
-        reg.replace_all_re(r"members_by_params\.extend\(\s*c\.members_by_params\s*\.into_values\(\)\s*\.flat_map\(\|m\| m\.into_iter\(\)\),?\s*\);", "shim_extend_flatten(&mut members_by_params, c.members_by_params);", "R2")
+        reg.replace_all_re(r"members_by_params\.extend\(\s*c\.members_by_params\s*\.into_values\(\)\s*\.(?:flat_map\(\|m\| m\.into_iter\(\)\)|flatten\(\)),?\s*\);", "shim_extend_flatten(&mut members_by_params, c.members_by_params);", "R2")
 
     CHUNKS = [(r"header\.as_bytes\(\)", "hdr_bytes(header)"), (r"c\.class\.as_bytes\(\)", "class_bytes(c.class)"),
               (r"&string_bytes", "string_bytes@"), (r"([a-z_]+)\.as_bytes\(\)", r"members_bytes(\1@)")]
